@@ -41,12 +41,12 @@ def gen_tree(rng: random.Random, depth: int) -> tuple:
     if depth <= 0 or rng.random() < 0.3:
         return ("base", rng.randrange(2))
     c = rng.random()
-    if c < 0.12:
-        return (rng.choice(["agg", "distinct", "ordlimit", "respell"]), gen_tree(rng, depth - 1))
+    if c < 0.16:
+        return (rng.choice(["agg", "distinct", "ordlimit", "respell", "window", "window2"]), gen_tree(rng, depth - 1))
     if c < 0.4:
         return ("wrap", gen_tree(rng, depth - 1))
     if c < 0.75:
-        return ("join", gen_tree(rng, depth - 1), gen_tree(rng, depth - 1), rng.choice(["inner", "left", "full"]))
+        return ("join", gen_tree(rng, depth - 1), gen_tree(rng, depth - 1), rng.choice(["inner", "left", "full", "inner", "left", "full", "right", "left_semi", "left_anti"]))
     return ("setop", gen_tree(rng, depth - 1), gen_tree(rng, depth - 1), rng.choice(["union", "intersect", "exceptAll"]))
 
 
@@ -132,6 +132,18 @@ def real(tr: tuple):
         return real(tr[1]).orderBy(F.col("k").desc_nulls_last(), F.col("v").asc_nulls_first()).limit(3).select("k", "v")
     if k == "respell":  # mixed-case output names: the text must report the user's spelling
         return real(tr[1]).withColumnRenamed("v", "Vee").select(F.col("k").alias("Kay"), "Vee").select(F.col("Kay").alias("k"), F.col("Vee").alias("v"))
+    if k == "window":  # a filter on a window column must stay above the window
+        from sqlframe.duckdb import Window
+
+        w = Window.partitionBy("k").orderBy(F.col("v").asc_nulls_first())
+        return real(tr[1]).withColumn("rn", F.row_number().over(w)).where(F.col("rn") == 1).select("k", "v")
+    if k == "window2":  # a filter on an ordinary column *after* a window column was computed must not change the window's input
+        from sqlframe.duckdb import Window
+
+        w = Window.partitionBy("k").orderBy(F.col("v").asc_nulls_first())
+        return real(tr[1]).withColumn("rn", F.row_number().over(w)).where(F.col("v") != 20).select("k", F.col("rn").alias("v"))
+    if k == "unaliased":  # an expression without alias: the text must name the column like collect() does
+        return real(tr[1]).select("k", F.col("v") + 1)
     L = real(tr[1])
     R = real(tr[2])
     if k == "join":
@@ -189,10 +201,13 @@ def run_texts(df, ordered: bool) -> t.Tuple[t.List[str], t.Dict[str, t.Any]]:
     fails: t.List[str] = []
     info: t.Dict[str, t.Any] = {}
     try:
-        C = [[plain(v) for v in r] for r in df.collect()]
+        R = df.collect()
+        C = [[plain(v) for v in r] for r in R]
     except Exception as e:  # C03 only speaks about DataFrames that can be collected (joins failing here are C02's)
         return [], {"uncollectable": f"{type(e).__name__}: {str(e)[:120]}"}
-    cols = list(df.columns)
+    # the names collect() reports are its Rows' field names; df.columns stands in when there is no row (and says
+    # nothing for an unexpanded `SELECT *` over a table the catalog has not looked up)
+    cols = list(R[0].__fields__) if R else list(df.columns)
     for opt, quote, pretty in FLAGS:
         tag = f"optimize={opt},quote_identifiers={quote},pretty={pretty}"
         try:
@@ -215,7 +230,7 @@ def run_texts(df, ordered: bool) -> t.Tuple[t.List[str], t.Dict[str, t.Any]]:
         except Exception as e:  # noqa
             fails.append(f"[{tag}] the engine rejects the text: {type(e).__name__}: {str(e)[:160]}")
             continue
-        if got_cols != cols:
+        if got_cols != cols and "*" not in cols:
             fails.append(f"[{tag}] column names {got_cols} differ from collect()'s {cols}")
         if (got != C) if ordered else (bag(got) != bag(C)):
             fails.append(f"[{tag}] rows differ from collect(): {got[:6]} vs {C[:6]}")
@@ -225,6 +240,9 @@ def run_texts(df, ordered: bool) -> t.Tuple[t.List[str], t.Dict[str, t.Any]]:
 
 def run_struct(tr: tuple) -> dict:
     try:
+        from sqlglot.schema import MappingSchema
+
+        bases()[0].catalog._schema = MappingSchema()
         df = real(tr)
         fails, info = run_texts(df, False)
         return {"fails": fails, "chain": info.get("chain"), "uncollectable": info.get("uncollectable")}
@@ -232,13 +250,86 @@ def run_struct(tr: tuple) -> dict:
         return {"fails": [f"building the program raised {type(e).__name__}: {str(e)[:200]}"], "chain": None}
 
 
+def apply_spelled(df: t.Any, s: dict, F: t.Any) -> t.Any:
+    """the step with every name it *introduces* written in upper case (references stay as generated: DuckDB
+    sessions normalise both) — the rendered text must report the user's spelling, and still mean the same"""
+    k = s["k"]
+    if k == "select":
+        return df.select(*[X.to_column(c01.tuple_(e), F).alias(n.upper()) for n, e in s["items"]])
+    if k == "withColumn":
+        return df.withColumn(s["n"].upper(), X.to_column(c01.tuple_(s["e"]), F))
+    if k == "withColumnRenamed":
+        return df.withColumnRenamed(s["a"], s["b"].upper())
+    if k == "toDF":
+        return df.toDF(*[n.upper() for n in s["names"]])
+    return c01.apply_step(df, s, F)
+
+
+SOURCES_KINDS = ["table", "sql_star", "sql_cols", "read_table"]
+
+
+def star_ok(c: dict) -> bool:
+    """`session.sql("SELECT * FROM t")` over a table the catalog has not looked up has no column list: before an explicit
+    select only the steps that name their columns themselves are exercised (the others need the list and either are
+    rejected when the program is built or silently work on `*`: not C03's business)"""
+    for s in c["steps"]:
+        if s["k"] == "select":
+            return True
+        if s["k"] not in ("where", "orderBy", "limit", "distinct"):
+            return False
+    return True
+
+
+def star_filter(c: dict) -> bool:
+    """a row filter (where / dropna) anywhere downstream of the unexpanded `SELECT *` of a table whose columns the catalog
+    does not know (the star stays at the bottom of the CTE chain)"""
+    return c.get("source") == "sql_star" and any(s["k"] in ("where", "dropna") for s in c["steps"])
+
+
+def make_source(c: dict) -> t.Any:
+    """the chain's input: createDataFrame (VALUES), or a real engine table reached through session.table /
+    session.sql("SELECT * …") / session.sql("SELECT cols …") / read.table, in a session whose catalog already
+    knows another table (the optimizer then sees a non-empty schema that lacks this one)"""
+    from sqlglot.schema import MappingSchema
+
+    s = bases()[0]
+    src = c.get("source", "createDataFrame")
+    if src == "createDataFrame":
+        # what the optimizer does depends on whether the catalog knows any table: a case says which (default: none),
+        # so that its outcome does not depend on which cases the same worker process ran before
+        if not c.get("catalog_seen"):
+            s.catalog._schema = MappingSchema()
+            return X.make_df(s, c["schema"], c["rows"])
+    conn = s._conn
+    if not getattr(make_source, "made", False):
+        conn.execute("CREATE OR REPLACE TABLE c03_seen (k BIGINT, v BIGINT)")
+        conn.execute("INSERT INTO c03_seen VALUES (1, 2)")
+        make_source.made = True  # type: ignore
+    s.catalog._schema = MappingSchema()
+    s.table("c03_seen")
+    if src == "createDataFrame":
+        return X.make_df(s, c["schema"], c["rows"])
+    name = "c03_src_" + vlib.digest([c["schema"], c["rows"], src])[:12]
+    ddl = ", ".join(f"{n} {'BIGINT' if k == 'int' else 'VARCHAR'}" for n, k in c["schema"].items())
+    conn.execute(f"CREATE OR REPLACE TABLE {name} ({ddl})")
+    for r in c["rows"]:
+        conn.execute(f"INSERT INTO {name} VALUES ({', '.join('?' for _ in r)})", list(r))
+    if src == "table":
+        return s.table(name)
+    if src == "read_table":
+        return s.read.table(name)
+    if src == "sql_star":
+        return s.sql(f"SELECT * FROM {name}")
+    return s.sql(f"SELECT {', '.join(c['schema'])} FROM {name}")
+
+
 def run_chain(c: dict) -> dict:
     from sqlframe.duckdb import functions as F
 
     try:
-        df = X.make_df(bases()[0], c["schema"], c["rows"])
+        df = make_source(c)
         for s in c["steps"]:
-            df = c01.apply_step(df, s, F)
+            df = apply_spelled(df, s, F) if c.get("spell") else c01.apply_step(df, s, F)
         fails, _ = run_texts(df, c01.order_checked(c))
         return {"fails": fails}
     except Exception as e:  # noqa
@@ -260,7 +351,7 @@ def limit_then_reader(c: dict) -> bool:
     for s in c["steps"]:
         if s["k"] == "limit" and s["n"] < c01.BIG:
             seen_limit = True
-        elif seen_limit and s["k"] in ("where", "distinct", "orderBy"):
+        elif seen_limit and s["k"] in ("where", "distinct", "orderBy", "dropna"):
             return True
     return False
 
@@ -277,8 +368,18 @@ def has_common_base(tr: tuple) -> bool:
     return any(has_common_base(x) for x in tr[1:] if isinstance(x, tuple))
 
 
+def has_kind(tr: tuple, kind: str) -> bool:
+    return tr[0] == kind or any(has_kind(x, kind) for x in tr[1:] if isinstance(x, tuple))
+
+
+def has_semi_anti(tr: tuple) -> bool:
+    if tr[0] == "join" and tr[3] in ("left_semi", "left_anti"):
+        return True
+    return any(has_semi_anti(x) for x in tr[1:] if isinstance(x, tuple))
+
+
 def has_outer_join(tr: tuple) -> bool:
-    if tr[0] == "join" and tr[3] != "inner":
+    if tr[0] == "join" and tr[3] in ("left", "right", "full"):
         return True
     return any(has_outer_join(x) for x in tr[1:] if isinstance(x, tuple))
 
@@ -304,13 +405,51 @@ def contains_join(tr: tuple) -> bool:
     return tr[0] in ("join", "setop") or any(contains_join(x) for x in tr[1:] if isinstance(x, tuple))
 
 
+def tree_reductions(tr: tuple) -> t.List[tuple]:
+    """trees obtained by replacing one node by one of its operands"""
+    out: t.List[tuple] = []
+    subs = [i for i, x in enumerate(tr) if isinstance(x, tuple)]
+    for i in subs:
+        out.append(tr[i])
+    for i in subs:
+        for r in tree_reductions(tr[i]):
+            out.append(tr[:i] + (r,) + tr[i + 1 :])
+    return out
+
+
+def minimise_tree(tr: tuple) -> tuple:
+    best = tr
+    for _ in range(10):
+        nxt = None
+        for cand in tree_reductions(best):
+            r = run_struct(cand)
+            if r["fails"] and not r.get("uncollectable"):
+                nxt = cand
+                break
+        if nxt is None:
+            break
+        best = nxt
+    return best
+
+
 def classify_tree(tr: tuple, fails: t.List[str], known: t.Dict[str, dict]) -> t.List[str]:
-    """third-party (sqlglot optimizer) findings: only optimize=True renderings fail, and the program has the listed shape"""
+    """third-party (sqlglot optimizer) findings: only optimize=True renderings fail, and a minimal failing subprogram
+    (operands replaced by their own operands while it still fails) has the listed shape"""
+    if not only_optimized(fails):
+        return []
+    tr = minimise_tree(tr)
+    fails = run_struct(tr)["fails"]
     if not only_optimized(fails):
         return []
     hs = set()
     for f in fails:
-        if "sql() raised KeyError" in f and has_common_base(tr) and "H_optDiamondKeyError" in known:
+        if "rows differ" in f and has_semi_anti(tr) and "H_optSemiAntiDropped" in known:
+            hs.add("H_optSemiAntiDropped")
+        elif "rows differ" in f and has_kind(tr, "window2") and "H_optFilterBelowWindow" in known:
+            hs.add("H_optFilterBelowWindow")
+        elif "column names" in f and "_col_" in f and tr[0] == "unaliased" and "H_optUnaliasedName" in known:
+            hs.add("H_optUnaliasedName")
+        elif "sql() raised KeyError" in f and has_common_base(tr) and "H_optDiamondKeyError" in known:
             hs.add("H_optDiamondKeyError")
         elif "rows differ" in f and nested_outer(tr) and "H_optNestedOuterJoin" in known:
             hs.add("H_optNestedOuterJoin")
@@ -321,36 +460,70 @@ def classify_tree(tr: tuple, fails: t.List[str], known: t.Dict[str, dict]) -> t.
     return sorted(hs)
 
 
+def step_refs(s: dict) -> t.Set[str]:
+    """input columns a step's expressions read"""
+    k = s["k"]
+    if k == "where":
+        return c01.expr_refs(c01.tuple_(s["p"]))
+    if k == "select":
+        return set().union(*[c01.expr_refs(c01.tuple_(e)) for _, e in s["items"]]) if s["items"] else set()
+    if k == "withColumn":
+        return c01.expr_refs(c01.tuple_(s["e"]))
+    if k == "dropna":
+        return set(s["sub"])
+    return set()
+
+
 def lateral_alias(c: dict) -> bool:
-    """a step gives an existing column name a new meaning (select item / withColumn / fillna under the same name):
-    when the optimizer merges blocks, references to the *input* column of that name are resolved to the new alias"""
+    """the mechanisms by which sqlglot's optimizer resolves a reference to an *input* column to a same-named alias:
+    (a) a row filter (where / dropna) reads column n and a later step gives the name n a new meaning — merged into one
+        block, the filter is evaluated on the new value;
+    (b) one select list defines n (not as the plain column) and a later item of the same list reads the input n;
+    (c) toDF moves an existing name to another position; two dropna steps both define the helper column num_nulls"""
     cols = list(c["schema"])
     if sum(1 for s in c["steps"] if s["k"] == "dropna") >= 2:
-        return True  # each dropna defines the helper column num_nulls: the second one redefines it
+        return True
+    filtered: t.Set[str] = set()  # names read by a filter so far
+    gone: t.Set[str] = set()  # names that existed earlier in the chain and were renamed / dropped
     for s in c["steps"]:
         k = s["k"]
+        if k in ("where", "dropna"):
+            filtered |= step_refs(s)
         if k == "select":
-            if any(n in cols and c01.tuple_(e) != ("col", n) for n, e in s["items"]):
-                return True
+            seen_new: t.Set[str] = set()
+            for n, e in s["items"]:
+                e = c01.tuple_(e)
+                if c01.expr_refs(e) & seen_new:
+                    return True  # (b)
+                if n in cols and e != ("col", n):
+                    seen_new.add(n)
+                    if n in filtered:
+                        return True  # (a)
+            gone |= {x for x in cols if x not in [n for n, _ in s["items"]]}
             cols = [n for n, _ in s["items"]]
         elif k == "withColumn":
-            if s["n"] in cols:
+            if s["n"] in cols and s["n"] in filtered:
                 return True
-            cols = cols + [s["n"]]
-        elif k == "fillna":
-            return True
+            if s["n"] not in cols:
+                cols = cols + [s["n"]]
+        elif k in ("fillna", "replace"):
+            if set(s["sub"]) & filtered:
+                return True
         elif k == "withColumnRenamed":
+            gone.add(s["a"])
             cols = [s["b"] if x == s["a"] else x for x in cols]
         elif k == "drop":
+            gone |= set(s["ns"])
             cols = [x for x in cols if x not in s["ns"]]
         elif k == "toDF":
             if any(n in cols and cols.index(n) != i for i, n in enumerate(s["names"])):
                 return True
+            gone |= {x for x in cols if x not in s["names"]}
+            filtered = {s["names"][cols.index(x)] for x in filtered if x in cols} | filtered
             cols = list(s["names"])
         elif k == "unpivot":
+            gone |= {x for x in cols if x not in s["ids"]}
             cols = s["ids"] + [s["var"], s["val"]]
-        elif k == "replace":
-            return True
     return False
 
 
@@ -377,10 +550,48 @@ def order_key_dropped(c: dict) -> bool:
     return False
 
 
-def classify_chain(c: dict, fails: t.List[str], known: t.Dict[str, dict]) -> t.List[str]:
+def minimise_chain(c: dict, keep: t.Callable[[dict], bool]) -> dict:
+    """drop steps while `keep` still holds (a minimal failing core: the classification looks at that, not at the
+    whole program, so an unrelated failure inside a program that merely *contains* a listed shape is still reported)"""
+    best = c
+    for _ in range(12):
+        cands = [dict(best, steps=best["steps"][:i] + best["steps"][i + 1 :]) for i in range(len(best["steps"])) if len(best["steps"]) > 1]
+        cands = [x for x in cands if c01.valid(x) and not c01.has_risky_limit(x)]
+        nxt = next((x for x in cands if keep(x)), None)
+        if nxt is None:
+            break
+        best = nxt
+    return best
+
+
+def classify_chain(c: dict, fails: t.List[str], known: t.Dict[str, dict], depth: int = 2) -> t.List[str]:
+    """[] unless every minimal failing core found in the program has a listed shape"""
+    if not only_optimized(fails):
+        return []
+    core = minimise_chain(c, lambda x: bool(run_chain(x)["fails"]))
+    cf = run_chain(core)["fails"]
+    hs = classify_core(core, cf, known)
+    if not hs:
+        return []
+    if depth > 0 and len(core["steps"]) < len(c["steps"]):
+        # another failure may hide behind this core: break the core (remove one of its steps from the program) and look again
+        for st in core["steps"]:
+            i = next(j for j, x in enumerate(c["steps"]) if x is st or x == st)
+            rest = dict(c, steps=c["steps"][:i] + c["steps"][i + 1 :])
+            if not rest["steps"] or not c01.valid(rest) or c01.has_risky_limit(rest):
+                continue
+            rf = run_chain(rest)["fails"]
+            if rf and not classify_chain(rest, rf, known, depth - 1):
+                return []
+    return hs
+
+
+def classify_core(c: dict, fails: t.List[str], known: t.Dict[str, dict]) -> t.List[str]:
     if not only_optimized(fails):
         return []
     hs = []
+    if star_filter(c) and "H_optStarFilter" in known and all("Referenced table" in f and "not found" in f for f in fails):
+        hs.append("H_optStarFilter")
     if limit_then_reader(c) and "H_optKeepsLimitBarrier" in known:
         hs.append("H_optKeepsLimitBarrier")
     if lateral_alias(c) and "H_optLateralAlias" in known:
@@ -396,7 +607,7 @@ def show_tree(tr: tuple) -> str:
         return f"b{tr[1]}"
     if k == "wrap":
         return f"{show_tree(tr[1])}.select(k,v)"
-    if k in ("agg", "distinct", "ordlimit", "respell"):
+    if k in ("agg", "distinct", "ordlimit", "respell", "window", "window2", "unaliased"):
         return f"{show_tree(tr[1])}.{k}()"
     return f"{show_tree(tr[1])}.{tr[3] if k == 'setop' else 'join[' + tr[3] + ']'}({show_tree(tr[2])})"
 
@@ -429,6 +640,13 @@ def run(ctx: Ctx) -> None:
         ("join", ("ordlimit", ("base", 1)), ("ordlimit", ("base", 1)), "left"),
         ("setop", ("distinct", ("base", 0)), ("distinct", ("base", 0)), "union"),
         ("respell", ("base", 0)),
+        ("window", ("base", 0)),
+        ("window2", ("base", 0)),
+        ("unaliased", ("base", 1)),
+        ("join", ("base", 0), ("base", 1), "left_semi"),
+        ("join", ("base", 0), ("base", 1), "left_anti"),
+        ("join", ("base", 0), ("base", 1), "right"),
+        ("join", ("wrap", ("base", 1)), ("distinct", ("base", 0)), "left_anti"),
     ]
     lean_cases = []
     for i, tr in enumerate(trees):
@@ -480,7 +698,33 @@ def run(ctx: Ctx) -> None:
                 cols = c11_cols(c)
                 if "MixedCase" not in cols:
                     c["steps"].append({"k": "withColumnRenamed", "a": ctx.rng.choice(cols), "b": "MixedCase"})
+            r = ctx.rng.random()
+            if r < 0.3:
+                c["source"] = ctx.rng.choice(SOURCES_KINDS)
+                if c["source"] == "sql_star" and not star_ok(c):
+                    c["source"] = "sql_cols"
+            elif r < 0.55:
+                c["spell"] = True
+            elif r < 0.7:
+                c["catalog_seen"] = True
             chains.append(c)
+    # every kind of table source followed by one step of every kind (the first step is where name resolution against
+    # the catalog happens)
+    for src in SOURCES_KINDS:
+        for kind in c01.KINDS:
+            c = c01.gen_program(ctx.rng, [kind, "select"], focus=True)
+            if c and c01.valid(c) and not c01.has_risky_limit(c) and (src != "sql_star" or star_ok(c)):
+                c["source"] = src
+                chains.append(c)
+    # focused kind tuples (every step reads or rewrites one column), as generated and with every introduced name
+    # spelled in upper case: alias handling in the final block (display names, ORDER BY keys) depends on the neighbours
+    for kinds in itertools.product(c01.KINDS, repeat=3 if ctx.thorough else 2):
+        for spell in (False, True, True):
+            c = c01.gen_program(ctx.rng, kinds, focus=True)
+            if c and c01.valid(c) and not c01.has_risky_limit(c):
+                if spell:
+                    c["spell"] = True
+                chains.append(c)
     cres = vlib.parallel_map(run_chain, chains)
     for c, r in zip(chains, cres):
         if r["fails"]:
